@@ -11,6 +11,7 @@
  *   nest             nesting families around CBOR_MAX_STACK_SIZE (C19)
  */
 #include <signal.h>
+#include <sys/time.h>
 #include <unistd.h>
 
 #include "cbor/internal/verif_hooks.h"
@@ -38,10 +39,18 @@ static void dump_current(const char* why) {
   if (write(2, "\n", 1) < 0) {}
 }
 static void on_death(void) { dump_current("sanitizer"); fflush(stdout); }
+/* watchdog: 10 s of CPU time of this process (a genuine non-terminating loop burns CPU; a descheduled process does not),
+ * backed by 300 s of wall time */
+static void watchdog(int on) {
+  struct itimerval it = {{0, 0}, {on ? 10 : 0, 0}};
+  setitimer(ITIMER_PROF, &it, NULL);
+  alarm(on ? 300 : 0);
+}
 static void on_signal(int sig) {
-  dump_current(sig == SIGALRM ? "hang" : sig == SIGABRT ? "abort" : "signal");
+  int hang = sig == SIGALRM || sig == SIGPROF;
+  dump_current(hang ? "hang" : sig == SIGABRT ? "abort" : "signal");
   fflush(stdout);
-  _exit(sig == SIGALRM ? 77 : 78);
+  _exit(hang ? 77 : 78);
 }
 #if defined(__has_feature)
 #if __has_feature(address_sanitizer)
@@ -203,9 +212,9 @@ static void one_load_core(const unsigned char* in, size_t len) {
   cur_in = in;
   cur_len = len;
   if (opt_lean) {
-    alarm(10);
+    watchdog(1);
     lean_load(in, len);
-    alarm(0);
+    watchdog(0);
     return;
   }
   char *trbuf = NULL, *pjbuf = NULL;
@@ -220,7 +229,7 @@ static void one_load_core(const unsigned char* in, size_t len) {
   long live0 = va.live;
   last_refused = va.refused;
   ret_events = 0;
-  alarm(10);
+  watchdog(1);
   /* short inputs are logged whole, so that the end-to-end judge does not depend on how far the decoder chose to read */
   fprintf(tr, "{\"e\":\"load\",\"len\":%zu,\"L\":%d,\"in\":[", len, CBOR_MAX_STACK_SIZE);
   if (len <= 1500) for (size_t i = 0; i < len; i++) fprintf(tr, i ? ",%u" : "%u", in[i]);
@@ -279,7 +288,7 @@ static void one_load_core(const unsigned char* in, size_t len) {
   vh_out = save;
   fprintf(tr, ",\"nodes\":%zu,\"ssize\":%zu,\"swritten\":%zu,\"copied\":%d,\"post_live\":%ld,\"shape\":%s}\n", nodes, ssize, swritten, copy_ok,
           post_live, shape_ok ? "true" : "false");
-  alarm(0);
+  watchdog(0);
   fclose(tr);
   int emit = 1;
   if (pj) {
@@ -679,6 +688,7 @@ static int real_main(int argc, char** argv) {
 #endif
   (void)on_death;
   signal(SIGALRM, on_signal);
+  signal(SIGPROF, on_signal);
   signal(SIGABRT, on_signal);
 #ifndef HAVE_SAN
   {
